@@ -326,7 +326,8 @@ func (p parts) format() string {
 
 // shape abstracts a string to its run-collapsed character classes
 // (a lower-case letter or digit, A upper, H long hex run, ^ control / non-ASCII;
-// punctuation literal), truncated after max classes.
+// the grammar's punctuation . - _ : / @ [ ] % literal, ? other punctuation),
+// truncated after max classes.
 func shape(s string, max int) string {
 	var b []byte
 	i := 0
@@ -364,10 +365,12 @@ func shape(s string, max int) string {
 			k = 'a'
 		case c < 0x20 || c >= 0x7f:
 			k = '^'
-		default:
+		case strings.IndexByte(".-_:/@[]%", c) >= 0:
 			k = c
+		default:
+			k = '?' // punctuation foreign to the grammar
 		}
-		if k == 'a' || k == 'A' || k == '0' || k == '^' {
+		if k == 'a' || k == 'A' || k == '?' || k == '^' {
 			if n := len(b); n > 0 && b[n-1] == k {
 				i++
 				continue
